@@ -116,26 +116,33 @@ Definition noround_fix (f : lfix) : lfix :=
          end).
 Definition noround_lap (l : llap) : llap :=
   mkLLap (l_id l) (l_date l) (l_time l) (l_vehicle l) (l_track l) (l_tags l) (l_note l) (l_rectype l) 0 (map noround_fix (l_fixes l)).
-Definition fix_rounded_close (f g : lfix) : bool :=
-  close_dp 1 (f_speed f) (f_speed g) && close_dp 1 (f_dir f) (f_dir g) && close_dp 1 (f_acc f) (f_acc g) &&
-  (match f_accel f, f_accel g with
+(* the implementation's channel must be a decimal nearest to the source value at its precision
+   (either one at a tie): within half a unit *)
+Definition half_dp (dp : Z) (src impl : f64) : bool :=
+  fle (fabs (fsub impl src)) (f_of_ratio 5000001 (10000000 * 10 ^ dp)).
+Definition half_odp (dp : Z) (src impl : option f64) : bool :=
+  match src, impl with None, None => true | Some x, Some y => half_dp dp x y | _, _ => false end.
+Definition fix_rounded_close (r : record) (g : lfix) : bool :=
+  half_dp 1 (r_speed r) (f_speed g) && half_dp 1 (g_head (r_gps r)) (f_dir g) && half_dp 1 (g_acc (r_gps r)) (f_acc g) &&
+  (match r_accel r, f_accel g with
    | None, None => true
-   | Some a, Some b => close_dp 2 (ao_lateral a) (ao_lateral b) && close_dp 2 (ao_lineal a) (ao_lineal b)
+   | Some a, Some b => half_dp 2 (a_x a) (ao_lateral b) && half_dp 2 (a_y a) (ao_lineal b)
    | _, _ => false
    end) &&
-  (match f_obd f, f_obd g with
+  (match r_obd r, f_obd g with
    | None, None => true
    | Some a, Some b =>
-       (match oo_rpm a, oo_rpm b with None, None => true | Some x, Some y => Z.abs (x - y) <=? 1 | _, _ => false end) &&
-       close_odp 2 (oo_map a) (oo_map b) && close_odp 1 (oo_speed a) (oo_speed b) && close_odp 2 (oo_throttle a) (oo_throttle b) &&
-       close_odp 1 (oo_coolant a) (oo_coolant b) && close_odp 0 (oo_iat a) (oo_iat b)
+       (match o_rpm a, oo_rpm b with None, None => true | Some x, Some y => half_dp 0 x (f_of_Z y) | _, _ => false end) &&
+       half_odp 2 (o_manifold a) (oo_map b) && half_odp 1 (o_speed a) (oo_speed b) && half_odp 2 (o_throttle a) (oo_throttle b) &&
+       half_odp 1 (o_coolant a) (oo_coolant b) && half_odp 0 (o_intake a) (oo_iat b)
    | _, _ => false
    end).
-Definition rounded_close (a b : list llap) : bool :=
-  Nat.eqb (length a) (length b) &&
-  forallb (fun '(x, y) => Nat.eqb (length (l_fixes x)) (length (l_fixes y)) &&
-                          forallb (fun '(f, g) => fix_rounded_close f g) (combine (l_fixes x) (l_fixes y)))
-          (combine a b).
+(* rows: the records the fixes were made from (after OBD prediction), lap by lap *)
+Definition rounded_close (rows : list (list record)) (b : list llap) : bool :=
+  Nat.eqb (length rows) (length b) &&
+  forallb (fun '(rs, y) => Nat.eqb (length rs) (length (l_fixes y)) &&
+                           forallb (fun '(r, g) => fix_rounded_close r g) (combine rs (l_fixes y)))
+          (combine rows b).
 
 (* C11 speaks about rows "between two fresh OBD readings" and about rows with fresh readings.
    What a stale row before the first or after the last fresh reading receives (an
@@ -177,7 +184,14 @@ Definition check (p : proj) (c : case) : verdict :=
          else if p_all p && zlist_eqb (tok_db p (map nodist_lap db)) (tok_db p (map nodist_lap (c_db c))) && dists_close db (c_db c)
               then VS
          else if p_all p && zlist_eqb (tok_db p (map noround_lap db)) (tok_db p (map noround_lap (c_db c)))
-                 && dists_close db (c_db c) && rounded_close db (c_db c)
+                 && dists_close db (c_db c)
+                 && (match (match co_predict (c_opts c) with
+                            | O => Ok (c_laps c)
+                            | _ => predict_obd_with (if Nat.leb 2 (co_predict (c_opts c)) then oracle_pred (c_table c) else pl_predict) (c_laps c)
+                            end) with
+                     | Ok laps' => rounded_close (map fix_rows (middle laps')) (c_db c)
+                     | _ => false
+                     end)
               then VS
          else if p_obd p && negb (p_all p) && obd_close (c_laps c) db (c_db c) then VS
          else VV)
